@@ -54,12 +54,14 @@ func mergedOf(hs [][]string) []string {
 func genHeaders(r *rand.Rand, k int) [][]string {
 	for {
 		var hs [][]string
-		mode := r.Intn(4)
+		mode := r.Intn(5)
 		for i := 0; i < k; i++ {
 			var h []string
 			switch mode {
 			case 0: // equal
 				h = append(h, pool[:3]...)
+			case 4: // prefixes that grow and shrink: a later input adds references, a still later one redescribes an early one
+				h = append(h, pool[:1+(i%2)*(1+i/2)]...)
 			case 1: // disjoint-ish
 				h = append(h, pool[(i*2)%len(pool)])
 				if r.Intn(2) == 0 && (i*2+1) < len(pool) {
@@ -103,7 +105,13 @@ func genHeaders(r *rand.Rand, k int) [][]string {
 func buildInput(r *rand.Rand, src int, names []string, order string, n int, big bool) (*sam.Header, []*sam.Record, []recT) {
 	var refs []*sam.Reference
 	for _, nm := range names {
-		rf, _ := sam.NewReference(nm, "", "", 1<<28, nil, nil)
+		// inputs may describe a reference differently (assembly name): a later description
+		// then takes the place of the earlier one in the merged header
+		assem := ""
+		if len(nm)%2 == 0 {
+			assem = []string{"", "", "GRCh38", "hg38"}[r.Intn(4)]
+		}
+		rf, _ := sam.NewReference(nm, assem, "", 1<<28, nil, nil)
 		refs = append(refs, rf)
 	}
 	h, _ := sam.NewHeader(nil, refs)
